@@ -6,6 +6,7 @@ import (
 	"strings"
 
 	"verif/checker/absint"
+	"verif/checker/core"
 )
 
 // c08R6: application calls between SetRemoteDescription(offer) and CreateAnswer. C08.R1 shows the direction a
@@ -15,31 +16,29 @@ import (
 // capabilities: legal(O) is downward closed in {send, recv}. So setSendingTrack, tabulated over (track nil?, current
 // direction): with track == nil the new direction's capabilities are a subset of the old one's (never gains recv or
 // send); with a track it gains at most `send` (and AddTrack consults the recorded remote direction first: C08.R5).
-func c08R6(c *Ctx) {
-	r := c.R
-	const rule = "C08.R6"
-	fi := c.mustFunc(rule, "", "RTPTransceiver.setSendingTrack")
+// c08SendingTable tabulates RTPTransceiver.setSendingTrack over (track nil?, current direction) with setDirection as effect.
+func c08SendingTable(c *Ctx, rule string) (t *absint.Table, caps map[string]string, fi *core.FuncInfo) {
+	fi = c.mustFunc(rule, "", "RTPTransceiver.setSendingTrack")
 	setDirection := c.mustFunc(rule, "", "RTPTransceiver.setDirection")
 	direction := c.mustFunc(rule, "", "RTPTransceiver.Direction")
 	if fi == nil || setDirection == nil || direction == nil {
-		return
+		return nil, nil, nil
 	}
 	dom, ok := enumDomain(c, rule, "", "RTPTransceiverDirection", 77)
 	if !ok {
-		return
+		return nil, nil, nil
 	}
-	caps := map[string]string{}
+	caps = map[string]string{}
 	for _, n := range []struct{ k, v string }{{"RTPTransceiverDirectionSendrecv", "sr"}, {"RTPTransceiverDirectionSendonly", "s"}, {"RTPTransceiverDirectionRecvonly", "r"}, {"RTPTransceiverDirectionInactive", ""}} {
 		k := c.mustConst(rule, "", n.k)
 		if k == nil {
-			return
+			return nil, nil, nil
 		}
 		caps[absint.ConstOf(k).String()] = n.v
 	}
-	const dirKey = "$recv.Direction()"
 	dims := []absint.Dim{
 		{Key: "$p0", Domain: []absint.Val{absint.Nil{}, absint.NonNil{Desc: "track"}}},
-		{Key: dirKey, Domain: dom},
+		{Key: c08DirKey, Domain: dom},
 	}
 	cfg := absint.Config{P: c.P, Dims: dims, MaxPaths: 20000,
 		Inline: func(fn *types.Func) bool { return c13ValueHelper(fn) },
@@ -47,23 +46,90 @@ func c08R6(c *Ctx) {
 			switch fn {
 			case setDirection.Obj:
 				if len(args) == 1 {
-					st.SetDim(dirKey, args[0])
+					st.SetDim(c08DirKey, args[0])
 					st.Emit("dir=" + args[0].String())
 					return absint.Tuple{}, true
 				}
 			case direction.Obj:
-				if v, ok := st.Dim(dirKey); ok {
+				if v, ok := st.Dim(c08DirKey); ok {
 					return v, true
 				}
 			}
 			return nil, false
 		},
 	}
-	t := absint.Tabulate(cfg, fi)
-	pos := c.P.Pos(fi.Decl.Pos())
-	if tableProblems(c, rule, "setSendingTrack|table", pos, t) {
+	t = absint.Tabulate(cfg, fi)
+	if tableProblems(c, rule, "setSendingTrack|table", c.P.Pos(fi.Decl.Pos()), t) {
+		return nil, nil, nil
+	}
+	return t, caps, fi
+}
+
+const c08DirKey = "$recv.Direction()"
+
+// c04R6 (C04): "after a change that requires renegotiation, such as adding a track ..., it fires": checkNegotiationNeeded
+// sees an AddTrack / RemoveTrack on an already negotiated transceiver only through the transceiver's direction, so
+// setSendingTrack must move it as W3C addTrack/removeTrack prescribe. Same table as C08.R6, judged for completeness:
+// every successful outcome with a track ends in a sending direction (recvonly -> sendrecv, inactive -> sendonly), every
+// successful outcome without one in a non-sending direction (sendrecv -> recvonly, sendonly -> inactive).
+func c04R6(c *Ctx) {
+	r := c.R
+	const rule = "C04.R6"
+	t, caps, fi := c08SendingTable(c, rule)
+	if t == nil {
 		return
 	}
+	pos := c.P.Pos(fi.Decl.Pos())
+	r.Cells += len(t.Rows)
+	for _, row := range t.Rows {
+		old := row.Get(c08DirKey)
+		oc, known := caps[old]
+		if !known {
+			continue
+		}
+		trackNil := row.Get("$p0") == "nil"
+		key := "setSendingTrack|cell|track-nil=" + sprintf("%v", trackNil) + ",direction=" + old
+		var bad []string
+		for _, o := range row.Outcomes {
+			if len(o.Results) != 1 {
+				continue
+			}
+			if _, isNil := o.Results[0].(absint.Nil); !isNil {
+				continue // a failing call changes nothing that needs negotiating
+			}
+			final := old
+			for _, ev := range o.Trace {
+				if strings.HasPrefix(ev, "dir=") {
+					final = strings.TrimPrefix(ev, "dir=")
+				}
+			}
+			fc, fk := caps[final]
+			if !fk {
+				continue
+			}
+			sends := strings.Contains(fc, "s")
+			switch {
+			case !trackNil && !sends:
+				bad = append(bad, "a track was set but the direction stays "+final)
+			case trackNil && sends:
+				bad = append(bad, "the track was removed but the direction stays "+final)
+			}
+			_ = oc
+		}
+		r.Check(len(bad) == 0, rule, key, pos, "a successful call leaves a direction that sends iff a track is set (outcomes: "+outcomesStr(row.Outcomes)+")",
+			strings.Join(bad, "; ")+": the transceiver's direction still matches what was negotiated, so checkNegotiationNeeded answers false and negotiationneeded never fires for this AddTrack/RemoveTrack")
+	}
+}
+
+func c08R6(c *Ctx) {
+	r := c.R
+	const rule = "C08.R6"
+	const dirKey = c08DirKey
+	t, caps, fi := c08SendingTable(c, rule)
+	if t == nil {
+		return
+	}
+	pos := c.P.Pos(fi.Decl.Pos())
 	r.Cells += len(t.Rows)
 	subset := func(a, b string) bool {
 		for _, ch := range a {
